@@ -268,7 +268,7 @@ struct Tool {
     p.base_to_json(v);
     v.set("tool", c05tool::engine_name).set("N", p.N).set("F", p.F).set("first_frame", p.first_frame).set("nframes", p.nframes)
      .set("case_seed", (long long)p.case_seed).set("nmol", p.nmol).set("chain", p.chain).set("fmt", p.fmt).set("variant", p.variant)
-     .set("block", p.block).set("vol_jitter", p.vol_jitter).set("alloc_stride", p.alloc_stride).set("sparse_mask", p.sparse_mask).set("variant_meaning", c05tool::tool_variant_json(p));
+     .set("block", p.block).set("vol_jitter", p.vol_jitter).set("alloc_stride", p.alloc_stride).set("sparse_mask", p.sparse_mask).set("lattice", p.lattice).set("variant_meaning", c05tool::tool_variant_json(p));
     return v;
   }
   static Plan from_json(const js::Value &v) {
@@ -279,6 +279,7 @@ struct Tool {
     p.variant = (int)v.num("variant", 0); p.block = (int)v.num("block", 0); p.vol_jitter = (int)v.num("vol_jitter", 0);
     p.alloc_stride = (long)v.num("alloc_stride", 0);
     p.sparse_mask = (long)v.num("sparse_mask", 0);
+    p.lattice = (int)v.num("lattice", 0);
     return p;
   }
 
@@ -290,10 +291,11 @@ struct Tool {
     if (p.nframes >= 0) { Plan q = p; q.nframes = -1; out.push_back(q); }
     if (p.block > 0) { Plan q = p; q.block = 0; out.push_back(q); }
     if (p.nmol > 4) { Plan q = p; q.nmol = 4; out.push_back(q); }
-    if (p.vol_jitter) { Plan q = p; q.vol_jitter = 0; out.push_back(q); }
+    if (p.lattice && p.nmol > 2) { Plan q = p; q.nmol = p.nmol - 1; out.push_back(q); }
+    if (p.vol_jitter && !p.lattice) { Plan q = p; q.vol_jitter = 0; out.push_back(q); }
     if (p.sparse_mask) { Plan q = p; q.sparse_mask = 0; out.push_back(q); }
     if (p.alloc_stride > 0) { Plan q = p; q.alloc_stride = 0; out.push_back(q); q = p; q.alloc_stride = p.alloc_stride * 4; out.push_back(q); }
-    if (p.fmt) { Plan q = p; q.fmt = 0; out.push_back(q); }
+    if (p.fmt && !p.lattice) { Plan q = p; q.fmt = 0; out.push_back(q); }
     for (int b = 0; b < 8; b++) if (p.variant & (1 << b)) { Plan q = p; q.variant &= ~(1 << b); out.push_back(q); }
     if (p.strat_type != sim::Strategy::RW) { Plan q = p; q.strat_type = sim::Strategy::RW; out.push_back(q); }
     return out;
@@ -318,7 +320,7 @@ struct Tool {
     // a change of summation order (relative 1e-16 in the accumulators) moves it by about S * 1e-9; numbers
     // are compared (to 1e-9) only when S < 1e-2, i.e. when rounding can contribute at most ~1e-11.
     double sensitivity = 0;
-    if (!c05tool::ordered && ref.exit_code == 0) {
+    if (!c05tool::ordered && ref.exit_code == 0 && c05tool::numeric_rel_tol > 0 && !(c05tool::exact_lattice_plans && plan.lattice)) {
       Case c2;
       c05tool::g_perturb = true;
       c05tool::tool_build(plan, c2);
@@ -391,10 +393,11 @@ struct Tool {
     for (auto &kv : ref.files) {
       const std::string &a = o.files[kv.first];
       if (a == kv.second) continue;
-      if (c05tool::ordered) {
+      if (c05tool::ordered || (c05tool::exact_lattice_plans && plan.lattice)) {
         fail("output-differs", "output-differs:" + mode, "file " + kv.first + " is not byte-identical to the --nt 1 run: " + first_diff(a, kv.second));
         return rep;
       }
+      if (c05tool::numeric_rel_tol <= 0) { rep.counters["probe.numbers_not_compared"] = 1; continue; }
       // a numerical branch decided by rounding (e.g. the positive-definiteness test of csg_reupdate) makes the output discontinuous
       if (!well_conditioned || o.branch != ref.branch) { rep.counters["probe.ill_conditioned_numbers_not_compared"] = 1; continue; }
       std::string why;
@@ -449,6 +452,20 @@ std::string gen_trajectory(const Plan &p, double box, int) {
     double L = box * (p.vol_jitter ? (1.0 + 0.05 * (r.unit() - 0.5)) : 1.0);
     std::vector<double> x((size_t)n * 3);
     bool sparse = (p.sparse_mask >> f) & 1;
+    if (p.lattice) {
+      // distinct random sites on four parallel lines (1.0 nm apart) of eight sites with spacing 0.25 nm in a 2.0 nm box:
+      // the only pair distances inside a cut-off of 0.6 nm are exactly 0.25 and 0.5 (also across the periodic boundary),
+      // all coordinates and distances are exact binary fractions
+      L = 2.0;
+      std::vector<int> sites(32);
+      for (int i = 0; i < 32; i++) sites[(size_t)i] = i;
+      for (int i = 0; i < n && i < 32; i++) std::swap(sites[(size_t)i], sites[(size_t)i + (size_t)r.below((uint64_t)(32 - i))]);
+      for (int i = 0; i < n; i++) {
+        int sidx = sites[(size_t)(i % 32)];
+        int line = sidx / 8;
+        x[(size_t)i * 3] = 0.25 * (sidx % 8); x[(size_t)i * 3 + 1] = 1.0 * (line % 2); x[(size_t)i * 3 + 2] = 1.0 * (line / 2);
+      }
+    } else
     for (int m = 0; m < p.nmol; m++) {
       double c[3] = {r.unit() * L, r.unit() * L, r.unit() * L};
       if (sparse) {  // lattice with spacing 0.8 nm (2 x 2 x 3 sites): no pair of different molecules within 0.7 nm
@@ -462,7 +479,7 @@ std::string gen_trajectory(const Plan &p, double box, int) {
         }
       }
     }
-    if (g_perturb) {  // non-rigid displacement by one unit of the last printed digit
+    if (g_perturb && !p.lattice) {  // non-rigid displacement by one unit of the last printed digit
       double delta = p.fmt == 0 ? 1e-7 : 1e-3;  // nm
       for (int i = 0; i < n; i++) x[(size_t)i * 3 + (size_t)(i % 3)] += (i % 2 ? delta : -delta);
     }
